@@ -17,7 +17,8 @@ The modelled program (what harness/hx-c10 builds from the real crates):
 |---------------------------|---------------------------|
 | `init`                    | `spawn_derived!` up to `$spawner(..)` (computed/async_derived/arc_async_derived.rs): `loading = !is_ready`, initial future created and polled once with `now_or_never()` (fetch 0 starts in the constructor), `notifier.notify()`, task spawned (woken) |
 | `pollD` / `.start`        | first poll of the spawned task: `already_dirty` ⇒ `initial_fut.take()` (fetch 0 is dropped) |
-| `dLoop`                   | `while rx.next().await.is_some() { if update_if_necessary || first_run { fut = initial_fut.take() or new; loading = true; version += 1; new_value = fut.await; if latest_version == this_version { set_inner_value } } }`; `Receiver::poll_next` (channel.rs) = `waker.register; set.swap(false)` |
+| `dIter`, `dLoop`          | one iteration / the whole of `while rx.next().await.is_some() { if update_if_necessary || first_run { .. } }`; `Receiver::poll_next` (channel.rs) = `waker.register; set.swap(false)` |
+| `startFetch`              | `fut = initial_fut.take().unwrap_or_else(|| new ScopedFuture(fun()))` (the fetcher reads the sources here); `loading = true`; `version += 1`; reach `fut.await` |
 | `dUpdateOwn`              | `ArcAsyncDerivedInner::update_if_necessary` (inner.rs) called by the task: `Dirty ⇒ Clean, true`; sources are signals ⇒ `false` |
 | `dAsSource`               | the same function called by a *subscriber* on its source `d` (effect check phase): it also consumes `Dirty` (ghost `stolen`) |
 | `applyResult`             | `fut.await` returned: version check, `set_inner_value` = store + `notify_subs` |
@@ -29,7 +30,9 @@ The modelled program (what harness/hx-c10 builds from the real crates):
 | `refetch`                 | `d.mark_dirty()` (what `Resource::refetch` amounts to at this level) |
 | `pollA`                   | `AsyncDerivedFuture::poll` (future_impls.rs): `loading ⇒ wakers.push(waker); Pending`, else `Ready(value.unwrap())` |
 | `memoUpdate`, `mMarkDirty`| `MemoInner::update_if_necessary` / `mark_dirty` (computed/inner.rs); the only subscriber of `m` is the effect, which is the current observer in every call context, so the "mark subscribers dirty" loop skips it |
-| `effUpdate`, `eLoop`      | `EffectInner::update_if_necessary` (effect/inner.rs: `dirty` flag, then `any` over the sources in read order), the task of `Effect::new` (effect/effect.rs) |
+| `effUpdate`, `effAny`     | `EffectInner::update_if_necessary` (effect/inner.rs: `dirty` flag, then `any` over the sources in read order) |
+| `eIter`, `eLoop`, `runEffect` | the task of `Effect::new` (effect/effect.rs): `while rx.next().await.is_some() { if update_if_necessary || first_run { clear_sources; run } }` |
+| `readyList`, `pollNth`    | `hx_common::sched`: live woken tasks in spawn order (derived, effect, awaiters); `poll j` = its `j mod len`-th entry |
 | `complete`                | `oneshot::Sender::send`: wakes the waker of the last poll of the receiver (the task's once it has polled the fetch; the no-op waker of `now_or_never()` before) |
 
 Abstractions (stated, not hidden): fetches are serialised by the single task (a new fetch starts only
@@ -40,7 +43,13 @@ entry; waking only sets a flag, so the order is irrelevant). `latest_version == 
 (`version`, `fetchVersion`) although it can never fail: only the task itself increments `version`.
 
 Ghost state (never read by the algorithm): `stolen`, `manualLive`, `lastManual`, `notifs`, `panicked`.
-Loops carry fuel; running out of fuel yields (the task stays woken), which never happens (3 suffices).
+Loops carry fuel; running out of fuel yields (the task stays woken), which never happens: after one
+iteration that goes round again the channel flag is clear, so the next one suspends
+(`dLoop_eq`, `eLoop_eq` in Proofs/Async.lean).
+
+Not modelled: `Suspense` bookkeeping (`suspenses`, `SuspenseContext` — no context in scope in the
+harness), `AsyncTransition` (`ready_tx`: no transition running), `owner.paused()`, sources of the derived
+other than signals (the `Resource` construction over a memo source), several threads (C19).
 -/
 namespace Leptos.Async
 
